@@ -127,7 +127,7 @@ PROPS = {
                     "fragment sum or inflated size is refused with a 1009 close frame, control payloads over 125 are refused by WriteMessage, WriteClose (status code included), WriteFrame and "
                     "nextFrame, the unparsed cache stays below 14 + max(125, limit - assembled) while the conn lives and within max(ReadLimit, one read) "
                     "(c15_cache_bound_partial; the statement's 'never exceeds the read limit' is a known finding with c15_cache_bound_counterexample). Tied to the code by differential execution (cache and "
-                    "assembly lengths compared after every Parse call) and limit oracles on the implementation alone (bombs, limit-1/limit/limit+1; every public send entry point with control payloads of 124..127 bytes, judged on the decoded wire)",
+                    "assembly lengths compared after every Parse call) and limit oracles on the implementation alone (bombs, limit-1/limit/limit+1; the handler configurations message / data-frame / both in `hnd` cases, which are outside the model and judged by the oracles only; every public send entry point with control payloads of 124..127 bytes, judged on the decoded wire)",
             "note": "model fidelity is sampled; allocator capacities and reader chunking are inputs (bytes requested from the allocator are not "
                     "compared); termination of readAll is not a theorem: the loop is structurally recursive on the observed Read results, a "
                     "no-progress Read is outside the reader contract (stuck) and a spinning implementation is caught by the hang oracle; "
